@@ -87,6 +87,12 @@ Section AnyCarrier.
       + f_equal. exact (ranges_loop (fun f r => f_deriv f (slice (fst r) (snd r) x)) rs []).
       + rewrite <- flat_map_concat_map. apply flat_map_ext. intros [[s e] g]. reflexivity.
   Qed.
+  (* ADevice: the device whose preference is a function object *)
+  Lemma gen_adevice n bnd cb (g : fn A) ucs s p : let d := Build_leafdev n bnd cb (KA g ucs) in
+    ADevice_cost (fobj_of g) s p = leaf_cost d s p /\
+    ADevice_deriv (fobj_of g) s p = leaf_deriv d s p /\
+    ADevice_hess (fobj_of g) s p = leaf_hess d s.
+  Proof. cbv zeta. repeat split. Qed.
 End AnyCarrier.
 
 Local Open Scope R_scope.
